@@ -218,32 +218,59 @@ def parseSite (s : String) : Option PSite :=
 
 def globalKinds : List String :=
   ["sb", "rwsb", "sbc", "sbtd", "sbreg", "sbarr", "rwsbarr", "sbarr2", "sbarru", "sbbl", "sbtdarr", "sbarrtd", "sbarrtd2", "sbmem",
-   "sbparam", "cb", "cbuf", "gv", "gs", "st"]
+   "sbparam", "cb", "cbuf", "gv", "gs", "st", "sbmulti", "sbns", "sbst", "sbex", "sblocal", "cbmem", "sbtwo", "decoy"]
+def modes : List String := ["np", "pipe", "npo", "pname"]
+/-- wrappers that only exist for the plain typed loads -/
+def plainLoadWraps : List String := ["gi", "da", "dt", "dta", "pd", "sl"]
 def fnKinds : List String :=
   ["bload", "bload2", "rwbload", "rwbload2", "rwbstore", "rwbstoret", "baload", "rwbaload", "rwbastore", "rwbastoret"]
-def wraps : List String := ["m", "u", "t", "t0", "me", "p", "a", "gi", "da", "ex", "dt", "dta"]
+def wraps : List String :=
+  ["m", "u", "t", "t0", "me", "p", "a", "gi", "da", "ex", "dt", "dta",
+   "pd", "pf", "ns", "lp", "tt", "two", "tm", "mt", "sl", "hb"]
 
 /-- what the type checker makes of a global declaration of the given kind (`none`: no entry in the global
     registry that matters).  An extern global's *base* type is made `const` before the declarator's array
     dimensions are applied (`parse_globaltype`: "all extern variables are implicitly const"), so `T g[4]` is
     `Array(Modifier(const, T))` and, with `typedef T A[2]`, `A g[3]` is `Array(Modifier(const, Array(T)))`. -/
-def globalOf (kind : String) (r : TyRef) : Option GTy :=
+def globalOf (kind : String) (r : TyRef) (i : Nat) : List GTy :=
+  let one (x : GTy) : List GTy := [x]
   let sb := GTy.modifier (.object "StructuredBuffer" (some r))
   let rwsb := GTy.modifier (.object "RWStructuredBuffer" (some r))
-  if kind == "sb" || kind == "sbtd" || kind == "sbreg" then some sb
-  else if kind == "rwsb" then some rwsb
+  if kind == "sb" || kind == "sbtd" || kind == "sbreg" then one sb
+  else if kind == "rwsb" then one rwsb
   -- `const StructuredBuffer<const S>`: the element is the type id of `const S`, not of `S`
-  else if kind == "sbc" then some (.modifier (.object "StructuredBuffer" (some ⟨constId r.id, r.ty⟩)))
-  else if kind == "sbarr" || kind == "sbarru" || kind == "sbbl" then some (.array sb)
-  else if kind == "rwsbarr" then some (.array rwsb)
-  else if kind == "sbarr2" then some (.array (.array sb))
-  else if kind == "sbtdarr" then some (.modifier (.array (.object "StructuredBuffer" (some r))))
-  else if kind == "sbarrtd" then some (.array (.modifier (.array (.object "StructuredBuffer" (some r)))))
+  else if kind == "sbc" then one (.modifier (.object "StructuredBuffer" (some ⟨constId r.id, r.ty⟩)))
+  else if kind == "sbarr" || kind == "sbarru" || kind == "sbbl" then one (.array sb)
+  else if kind == "rwsbarr" then one (.array rwsb)
+  else if kind == "sbarr2" then one (.array (.array sb))
+  else if kind == "sbtdarr" then one (.modifier (.array (.object "StructuredBuffer" (some r))))
+  else if kind == "sbarrtd" then one (.array (.modifier (.array (.object "StructuredBuffer" (some r)))))
   else if kind == "sbarrtd2" then
-    some (.array (.modifier (.array (.modifier (.array (.object "StructuredBuffer" (some r)))))))
-  else if kind == "cb" then some (.modifier (.object "ConstantBuffer" (some r)))
-  else if kind == "sbparam" then none
-  else some .other
+    one (.array (.modifier (.array (.modifier (.array (.object "StructuredBuffer" (some r)))))))
+  else if kind == "cb" then one (.modifier (.object "ConstantBuffer" (some r)))
+  -- two declarators of one declaration: two entries of the global registry (both named at the same line)
+  else if kind == "sbmulti" then [.array sb, sb]
+  -- a namespace does not change the type; `extern` is what a global is anyway
+  else if kind == "sbns" || kind == "sbex" then one sb
+  -- a `static` global is not extern: its type is not made const
+  else if kind == "sbst" then one (.object "StructuredBuffer" (some r))
+  -- a local variable is not in the global registry
+  else if kind == "sblocal" then []
+  -- one struct template `WT<T> { T m; }` instantiated with `float` and with the site's type: two struct types of their own
+  else if kind == "sbtwo" then
+    [.modifier (.object "StructuredBuffer" (some ⟨6000000 + i, .struct (Tys.ofList [.scalar .Float32])⟩)),
+     .modifier (.object "StructuredBuffer" (some ⟨5000000 + i, .struct (Tys.ofList [r.ty])⟩))]
+  -- resources of other kinds, plain variables, and structured buffers of scalars (8 / 8, they agree)
+  else if kind == "decoy" then
+    [.modifier (.object "Buffer" none), .modifier (.object "RWBuffer" none), .modifier (.object "Texture2D" none),
+     .modifier (.object "RWTexture2D" none), .modifier (.object "SamplerState" none),
+     .modifier (.object "ByteAddressBuffer" none), .other, .other, .other, .modifier (.object "RWByteAddressBuffer" none),
+     .modifier (.object "StructuredBuffer" (some ⟨7000000, .scalar .Float32⟩)),
+     .modifier (.object "RWStructuredBuffer" (some ⟨7000001, .scalar .UInt32⟩))]
+  -- `ConstantBuffer<H>` where `H` has a structured-buffer member: an object the loop does not match
+  else if kind == "cbmem" then one (.modifier (.object "ConstantBuffer" none))
+  else if kind == "sbparam" then []
+  else one .other
 
 def intrinsicOf (kind : String) : String :=
   if kind == "bload" || kind == "bload2" then "ByteAddressBufferLoadT"
@@ -259,19 +286,27 @@ def intrinsicOf (kind : String) : String :=
 def moduleOf (refs : List TyRef) (sites : List PSite) : Module :=
   let indexed := sites.zipIdx
   let refOf (s : PSite) : TyRef := refs.getD s.ty ⟨0, .other .Void⟩
-  let globals := indexed.filterMap fun (s, i) =>
-    if s.wrap == "" then (globalOf s.kind (refOf s)).map fun g => ⟨g, "G" ++ toString i⟩ else none
+  let globals := indexed.flatMap fun (s, i) =>
+    if s.wrap == "" then (globalOf s.kind (refOf s) i).map fun g => (⟨g, "G" ++ toString i⟩ : Global) else []
   -- `dt` / `dta`: the type argument is the template parameter itself / an array of it (a type of its own)
-  let fnOf (si : PSite × Nat) : Fn :=
+  let fnOf (si : PSite × Nat) : List Fn :=
     let s := si.1
     let r : TyRef :=
       if s.wrap == "dt" then ⟨2000000 + si.2, .other .TemplateParam⟩
       else if s.wrap == "dta" then ⟨2000000 + si.2, .arr (.other .TemplateParam) 2⟩
       else refOf s
-    ⟨some (intrinsicOf s.kind), some [.type r]⟩
-  let early := indexed.filter fun (s, _) => ["u", "p", "me", "gi", "da", "dt", "dta"].contains s.wrap
-  let late := indexed.filter fun (s, _) => ["m", "a", "t", "ex"].contains s.wrap
-  ⟨globals, (early ++ late).map fnOf⟩
+    let f : Fn := ⟨some (intrinsicOf s.kind), some [.type r]⟩
+    -- `two`: the function template is first instantiated with the wrapper's own struct `Z { float z; }`
+    if s.wrap == "two" then
+      [⟨some (intrinsicOf s.kind), some [.type ⟨3000000 + si.2, .struct (Tys.ofList [.scalar .Float32])⟩]⟩, f]
+    else [f]
+  let early := indexed.filter fun (s, _) => ["u", "p", "me", "gi", "da", "dt", "dta", "pd", "ns", "lp"].contains s.wrap
+  -- instantiated from main, in statement order: function templates (also through another template, also twice), the
+  -- methods of a struct template when `W<S>` is named, method templates; a static local; a buffer member of a global
+  let late := indexed.filter fun (s, _) => ["m", "a", "t", "ex", "tt", "two", "tm", "mt", "sl", "hb"].contains s.wrap
+  -- a body that follows main is type checked after it (the prototype before main has no body)
+  let post := indexed.filter fun (s, _) => s.wrap == "pf"
+  ⟨globals, (early ++ late ++ post).flatMap fnOf⟩
 
 def showProgVerdict (entries : List Entry) : Verdict → String
   | .ok => "ok"
@@ -284,7 +319,7 @@ def showProgVerdict (entries : List Entry) : Verdict → String
 def handleProg (head tys sites : String) : String :=
   match head.splitOn ":" with
   | [target, mode, style] =>
-    if !(["vk", "dx", "msl"].contains target && ["np", "pipe"].contains mode && style.toNat?.isSome) then "bad-request"
+    if !(["vk", "dx", "msl"].contains target && modes.contains mode && style.toNat?.isSome) then "bad-request"
     else
       let tyStrs := tys.splitOn ";"
       -- a type name the language does not have: the front end reports it
@@ -293,7 +328,7 @@ def handleProg (head tys sites : String) : String :=
       | some ts, some ss =>
         if ss.any fun s => s.ty ≥ ts.length ||
             !(if s.wrap == "" then globalKinds.contains s.kind else fnKinds.contains s.kind && wraps.contains s.wrap) ||
-            (["gi", "da", "dt", "dta"].contains s.wrap && !["bload", "rwbload", "baload", "rwbaload"].contains s.kind) ||
+            (plainLoadWraps.contains s.wrap && !["bload", "rwbload", "baload", "rwbaload"].contains s.kind) ||
             (s.wrap == "ex" && !["bload", "bload2", "rwbload", "rwbload2", "baload", "rwbaload"].contains s.kind)
         then "bad-request"
         -- `void` only as the whole type argument of a typed load that is type checked
